@@ -109,6 +109,18 @@ def run(ctx, ck) -> None:
     ck.floor('S1', ndunders, 16, 'arithmetic dunders on operator classes')
     ck.floor('S1', npaths, 14, 'operator-returning paths of structural binary dunders')
 
+    # S4: A - B = A + (-B): the right operand is negated exactly once
+    sub_fn = base.own.get('__sub__')
+    if isinstance(sub_fn, ast.FunctionDef):
+        s_, o_ = ('var', sub_fn.args.args[0].arg), ('var', sub_fn.args.args[1].arg)
+        for path in function_paths(sub_fn):
+            if path.exit != 'return' or _is_not_implemented(path.node.value):
+                continue
+            rt = term(path.node.value, path_env(path))
+            good = rt in (('binop', '+', s_, ('unop', 'neg', o_)), ('binop', '+', ('unop', 'neg', o_), s_), ('binop', '+', s_, ('binop', '*', ('unop', 'neg', ('const', '1')), o_)),
+                          ('binop', '+', s_, ('binop', '*', ('const', '-1'), o_)))
+            ck.expect('S4', good, sub_fn, 'A - B is A + (-B): the right operand negated exactly once, the left one untouched', f'A - B is built as {show(rt)}', instance='__sub__ form')
+
     # ------------------------------------------------------------------ S3 hand-over
     for cls in classes:
         for name, refl in REFLECTED.items():
@@ -437,8 +449,7 @@ def _check_scalar(ck, world, table, cls, name, fn, homothety) -> None:
             )
             ck.expect('S4', shape_guard, fn, 'a non-scalar factor is rejected by a dominating shape guard',
                       f'{cls.name}.{name} accepts a non-scalar factor (no dominating `shape != ()` rejection)', instance=f'{name} scalar guard')
-    if name == '__sub__':
-        pass
+
 
 
 def _check_composite_mv(ck, table, comp, add) -> None:
